@@ -25,7 +25,7 @@ RULE = ("(1) trees with hostile trusted payloads (metacharacters, entities, newl
 ASSUMPTIONS = ["hv.ref.layout decides placement for validly nested trees; plain text in these trees needs no escaping"]
 SHARDS = {"quick": 1, "thorough": 16}
 
-HOSTILE = ["\\n", "\\1x", "\\g<0>", "C:\\dir\\f", "<b>&amp;</b>", "</div>", "<!-- c -->", "a&b", "&lt;", "x\ny", "\n", "<script>alert(1)</script>", "</script>", "\"q\"", "'",
+HOSTILE = ["</SCRIPT>", "</ScRiPt >", "\\n", "\\1x", "\\g<0>", "C:\\dir\\f", "<b>&amp;</b>", "</div>", "<!-- c -->", "a&b", "&lt;", "x\ny", "\n", "<script>alert(1)</script>", "</script>", "\"q\"", "'",
            "<![CDATA[x]]>", "&#60;", "  lead", "trail  ", "<p>\n  <i>t</i>\n</p>", "&", "<", ">", "\r\n", "é\U0001f600", "\x00"]
 
 
@@ -333,7 +333,35 @@ def check_textdoc(ctx, payloads, in_script):
     return True
 
 
+def check_json_pipeline(ctx, payloads):
+    """str(tag) in JSON dependency mode, post-processed by HTMLTextDocument: trusted head markup arrives verbatim."""
+    import htmltools as _h
+
+    wit = {"json_pipeline_payloads": payloads}
+    dep = ht.HTMLDependency("jp", "1.0", head=ht.TagList(*[ht.HTML(p) for p in payloads]))
+    tag = ht.div("body text", dep)
+    old = _h.html_dependency_render_mode
+    _h.html_dependency_render_mode = "json"
+    try:
+        s_ = str(tag)
+    finally:
+        _h.html_dependency_render_mode = old
+    ctx.count("oracle.verbatim_json_pipeline")
+    try:
+        out = ht.HTMLTextDocument("<html><head>@@DEPS@@</head><body>" + s_ + "</body></html>", deps_replace_pattern="@@DEPS@@").render()["html"]
+    except Exception as e:
+        ctx.violation("render-raises", "JSON-mode pipeline raised %r" % e, wit)
+        return False
+    for p in payloads:
+        if p and out.count(p) != 1:
+            ctx.violation("trusted-payload-not-verbatim", "JSON-mode pipeline: trusted payload %r occurs %d times" % (p[:60], out.count(p)), dict(wit, output=out[:800]))
+            return False
+    return True
+
+
 def replay(ctx, w):
+    if "json_pipeline_payloads" in w:
+        return check_json_pipeline(ctx, w["json_pipeline_payloads"])
     if "payloads" in w:
         return check_textdoc(ctx, w["payloads"], w["in_script"])
     if "expr" in w:
@@ -415,6 +443,8 @@ def _run(ctx):
         ps = [payload(rng, ids, "p") for _ in range(rng.randint(1, 3))]
         insc = rng.random() < 0.4
         check_textdoc(ctx, ps, insc)
+        if rng.random() < 0.5:
+            ctx.guard(check_json_pipeline, ctx, ps, witness={"json_pipeline_payloads": ps})
         ctx.case(("textdoc", ps, insc), nontrivial=any("\\" in p or set(p) & set("&<>") for p in ps))
     ctx.sample({"expr": {"op": "add", "l": {"leaf": "str", "v": "a<b"}, "r": {"leaf": "html", "v": "<i>"}},
                 "value": ("a<b" + ht.HTML("<i>")).as_string()})
